@@ -7,7 +7,7 @@ from scipy.special import betainc
 
 from engine import lib, scen, xforms, zz9enc
 from engine.cmp import close
-from engine.oracle import Oracle
+from engine.oracle import Oracle, apparent_dims
 from engine.runner import SubCheck
 from props.c02 import _specs
 
@@ -32,7 +32,9 @@ ASSUMPTIONS = [
 ]
 
 SHAPES = [("cat", "cat")] * 4 + [("cat", "mr"), ("mr", "cat"), ("cat_date", "cat"),
-                                  ("mr", "mr"), ("cat", "text")]
+                                  ("mr", "mr"), ("cat", "text"),
+                                  # 3-D: the same test on every slice of one cube
+                                  ("cat", "cat", "cat"), ("mr", "cat", "cat"), ("cat", "mr", "cat")]
 
 
 def t_two_sided(t, df):
@@ -90,11 +92,22 @@ def _col_stats(orc, rs, cs, squared):
 
 
 def judge_stat(case, rec):
+    """Every slice of the cube is judged against its own respondents (3-D: one slice per
+    table element, read one after the other on the same cube)."""
     sv, q = case["survey"], case["query"]
-    part = lib.cube(zz9enc.encode(sv, q), case["transforms"]).partitions[0]
-    lib.warm(part, case.get("warmup"))
-    orc = Oracle(sv, q)
+    parts = lib.cube(zz9enc.encode(sv, q), case["transforms"]).partitions
     rec.event("shape=" + "x".join(case["shape"]))
+    dims = apparent_dims(sv, q)
+    tkeys = dims[0].keys if len(dims) == 3 else [None]
+    if len(dims) == 3 and len(parts) > 1:
+        rec.event("3-D: several slices")
+    for part, tkey in zip(parts, tkeys):
+        _judge_stat_part(case, rec, part, Oracle(sv, q, table_key=tkey))
+
+
+def _judge_stat_part(case, rec, part, orc):
+    sv, q = case["survey"], case["query"]
+    lib.warm(part, case.get("warmup"))
     rspecs, cspecs = _specs(part, orc, case)
     inexact = bool(q.get("weighted")) and bool(sv["weights"]) and any(
         float(w * 8) != int(w * 8) for w in sv["weights"])
